@@ -1,27 +1,50 @@
 -------------------------- MODULE TraceCredentials --------------------------
 (* Trace validation of client auth writers -> real request -> server         *)
 (* authenticators against C14.                                               *)
-(* case  : the request description (reset line)                              *)
-(* event : auth {a: the authenticator run on the request, o: what its        *)
-(*         application callback received and what it returned / marked,      *)
-(*         built: the client produced (and, for transport "server",          *)
-(*         delivered) the request}                                           *)
+(* case  : a SESSION on one client.Runtime (reset line: the steps, for       *)
+(*         replay).  The events tell what the driver did, in order:          *)
+(*   configure {def, debug, bstatic}  the application (re)sets               *)
+(*         Runtime.DefaultAuthentication, Runtime.Debug and the base path    *)
+(*         (with its static query parameters)                                *)
+(*   request {op, authz, hdrs, query, form, media, pstatic, transport}       *)
+(*         a request is made with the configuration as it is now             *)
+(*   auth {a: the authenticator run on that request, o: what its application *)
+(*         callback received and what it returned / marked, built: the       *)
+(*         client produced (and, for transport "server", delivered) the      *)
+(*         request}                                                          *)
+(* The model state is what a correct Runtime may remember - its              *)
+(* configuration - plus the request being judged: `configure` replaces the   *)
+(* configuration, `request` the request; every `auth` must satisfy C14 for   *)
+(* the configuration in force when the request was made, whatever was        *)
+(* configured or requested before.                                           *)
 EXTENDS Credentials, Json, IOUtils
 
 VARIABLES l, st, skipping, fails, cs
 
-CInit(e) == [op |-> e.op, def |-> e.def, authz |-> e.authz, hdrs |-> e.hdrs, query |-> e.query,
-             form |-> e.form, media |-> e.media]
+CInit(e) == [def |-> <<>>, debug |-> FALSE, bstatic |-> <<>>,
+             op |-> <<>>, authz |-> <<>>, hdrs |-> <<>>, query |-> <<>>, form |-> <<>>, media |-> "none",
+             pstatic |-> <<>>, transport |-> "direct", requested |-> FALSE]
+
+\* the case the property is stated on: the request with the configuration in force
+In(s) == [op |-> s.op, def |-> s.def, authz |-> s.authz, hdrs |-> s.hdrs, query |-> s.query, form |-> s.form, media |-> s.media,
+          static |-> s.bstatic \o s.pstatic, debug |-> s.debug, transport |-> s.transport]
 
 CAllowed(s, e) ==
-  CASE e.ev = "auth" -> e.built /\ ~e.o.panic /\ AuthOK(s, e.a, e.o)
+  CASE e.ev = "configure" -> TRUE
+    [] e.ev = "request"   -> TRUE
+    [] e.ev = "auth"      -> s.requested /\ e.built /\ ~e.o.panic /\ AuthOK(In(s), e.a, e.o)
     [] OTHER -> FALSE
 
 CWhy(s, e) ==
-  CASE e.ev = "auth" -> IF ~e.built THEN "request-not-built" ELSE IF e.o.panic THEN "panic" ELSE WhyAuth(s, e.a, e.o)
+  CASE e.ev = "auth" -> IF ~s.requested THEN "auth-without-request" ELSE IF ~e.built THEN "request-not-built" ELSE IF e.o.panic THEN "panic"
+                        ELSE WhyAuth(In(s), e.a, e.o)
     [] OTHER -> "unknown-event"
 
-CStep(s, e) == s
+CStep(s, e) ==
+  CASE e.ev = "configure" -> [s EXCEPT !.def = e.def, !.debug = e.debug, !.bstatic = e.bstatic, !.requested = FALSE]
+    [] e.ev = "request"   -> [s EXCEPT !.op = e.op, !.authz = e.authz, !.hdrs = e.hdrs, !.query = e.query, !.form = e.form,
+                                       !.media = e.media, !.pstatic = e.pstatic, !.transport = e.transport, !.requested = TRUE]
+    [] OTHER -> s
 
 TheTrace == ndJsonDeserialize(IOEnv.TRACE_FILE)
 TC == INSTANCE TraceCommon WITH TInit <- CInit, TAllowed <- CAllowed, TStep <- CStep,
